@@ -263,6 +263,433 @@ theorem aux_sphere_xyz (α u az σ : ℝ) (hα : Real.sin α = Real.cos u * Real
     lonX u az σ ^ 2 + lonY az σ ^ 2 + latNum u az σ ^ 2 = 1 := by
   rw [aux_sphere_xy α u az σ hα, add_comm]; exact aux_sphere_unit α u az σ hα
 
+/-- reduced latitude of point 2: the code's latitude `atan2` before the `1/(1−f)` stretch -/
+def u2R (α u az σ : ℝ) : ℝ := atan2 (latNum u az σ) (sqrt (latD α u az σ))
+
+theorem sin_u2R (α u az σ : ℝ) (hα : Real.sin α = Real.cos u * Real.sin az) :
+    Real.sin (u2R α u az σ) = latNum u az σ := by
+  have h := sqrt_mul_sin_atan2 (Real.sqrt (latD α u az σ)) (latNum u az σ)
+  rw [Real.sq_sqrt (latD_nonneg α u az σ), add_comm, aux_sphere_unit α u az σ hα, Real.sqrt_one,
+    one_mul] at h
+  exact h
+
+theorem cos_u2R (α u az σ : ℝ) (hα : Real.sin α = Real.cos u * Real.sin az) :
+    Real.cos (u2R α u az σ) = Real.sqrt (latD α u az σ) := by
+  have h := sqrt_mul_cos_atan2 (Real.sqrt (latD α u az σ)) (latNum u az σ)
+  rw [Real.sq_sqrt (latD_nonneg α u az σ), add_comm, aux_sphere_unit α u az σ hα, Real.sqrt_one,
+    one_mul] at h
+  exact h
+
+/-- C04.4 — the reduced latitude `u₂` and the auxiliary longitude `λ` computed by the code are the
+spherical coordinates of the end point `cos σ · P + sin σ · T` of the great-circle arc of length `σ`
+that leaves `P = (cos u₁, 0, sin u₁)` in the direction
+`T = cos α₁ · (−sin u₁, 0, cos u₁) + sin α₁ · (0, 1, 0)` (azimuth `α₁`) on the unit sphere. -/
+theorem aux_sphere_point (α u az σ : ℝ) (hα : Real.sin α = Real.cos u * Real.sin az) :
+    Real.cos (u2R α u az σ) * Real.cos (lonAux u az σ)
+        = Real.cos σ * Real.cos u + Real.sin σ * (Real.cos az * (-Real.sin u) + Real.sin az * 0) ∧
+    Real.cos (u2R α u az σ) * Real.sin (lonAux u az σ)
+        = Real.cos σ * 0 + Real.sin σ * (Real.cos az * 0 + Real.sin az * 1) ∧
+    Real.sin (u2R α u az σ)
+        = Real.cos σ * Real.sin u + Real.sin σ * (Real.cos az * Real.cos u + Real.sin az * 0) := by
+  have hc := sqrt_mul_cos_atan2 (lonX u az σ) (lonY az σ)
+  have hs := sqrt_mul_sin_atan2 (lonX u az σ) (lonY az σ)
+  rw [aux_sphere_xy α u az σ hα, ← cos_u2R α u az σ hα] at hc hs
+  refine ⟨?_, ?_, ?_⟩
+  · rw [lonAux, atan2_def, hc]; unfold lonX; simp only [sin_def, cos_def]; ring
+  · rw [lonAux, atan2_def, hs]; unfold lonY; simp only [sin_def]; ring
+  · rw [sin_u2R α u az σ hα]; unfold latNum; simp only [sin_def, cos_def]; ring
+
+/-- C04.4 — geodetic latitude from reduced latitude: `(1−f)·sin φ₂·cos u₂ = cos φ₂·sin u₂`
+(the division-free form of `tan φ₂ = tan u₂/(1−f)`; valid also at the poles). -/
+theorem lat2_from_reduced (f α u az σ : ℝ) (hα : Real.sin α = Real.cos u * Real.sin az) :
+    (1 - f) * Real.sin (lat2R f α u az σ) * Real.cos (u2R α u az σ)
+      = Real.cos (lat2R f α u az σ) * Real.sin (u2R α u az σ) := by
+  rw [cos_u2R α u az σ hα, sin_u2R α u az σ hα]
+  have hl : lat2R f α u az σ
+      = Complex.arg ⟨(1 - f) * Real.sqrt (latD α u az σ), latNum u az σ⟩ := rfl
+  have hs := Complex.norm_mul_sin_arg (⟨(1 - f) * Real.sqrt (latD α u az σ), latNum u az σ⟩ : ℂ)
+  have hc := Complex.norm_mul_cos_arg (⟨(1 - f) * Real.sqrt (latD α u az σ), latNum u az σ⟩ : ℂ)
+  simp only at hs hc
+  rw [hl]
+  linear_combination
+    (-Real.sin (Complex.arg ⟨(1 - f) * Real.sqrt (latD α u az σ), latNum u az σ⟩)) * hc
+    + Real.cos (Complex.arg ⟨(1 - f) * Real.sqrt (latD α u az σ), latNum u az σ⟩) * hs
+
+/-- C04.4 — `tan φ₂ = tan u₂ / (1−f)` away from the poles (`D > 0`) for a proper flattening. -/
+theorem lat2_tan (f α u az σ : ℝ) (hf : f < 1) (hD : 0 < latD α u az σ) :
+    Real.tan (lat2R f α u az σ) = Real.tan (u2R α u az σ) / (1 - f) := by
+  have h1 : (1 - f) ≠ 0 := by linarith
+  have h2 : Real.sqrt (latD α u az σ) ≠ 0 := (Real.sqrt_pos.mpr hD).ne'
+  unfold lat2R u2R
+  simp only [atan2_def, sqrt_def, Complex.tan_arg]
+  field_simp
+
+/-- C04.3 — reverse-azimuth form of Clairaut: `cos u₂ · sin(α₂ − π) = sin α` and
+`cos u₂ · cos(α₂ − π) = −sin u₁ sin σ + cos u₁ cos σ cos α₁`, where `α₂ − π` is the code's
+`atan2` for `azimuth2to1` before `+ 180`. -/
+theorem clairaut_reverse (α u az σ : ℝ) (hα : Real.sin α = Real.cos u * Real.sin az) :
+    Real.cos (u2R α u az σ) * Real.sin (revR α u az σ) = Real.sin α ∧
+    Real.cos (u2R α u az σ) * Real.cos (revR α u az σ) = revDen u az σ := by
+  have hD : revDen u az σ ^ 2 + Real.sin α ^ 2 = latD α u az σ := by
+    unfold revDen latD; simp only [pown_def, sin_def, cos_def]; ring
+  have hc := sqrt_mul_cos_atan2 (revDen u az σ) (Real.sin α)
+  have hs := sqrt_mul_sin_atan2 (revDen u az σ) (Real.sin α)
+  rw [hD, ← cos_u2R α u az σ hα] at hc hs
+  exact ⟨hs, hc⟩
+
+/-! ## 6. The σ iteration -/
+
+/-- Generic specification of `Py.forBreak`: the result is the `k`-fold iterate of the state map for
+some `k ≤ n`; no break flag was raised before the last executed iteration; and either all `n`
+iterations ran or the last executed iteration raised the flag. -/
+theorem forBreak_spec {σ : Type} (body : σ → σ × Bool) :
+    ∀ (n : ℕ) (s₀ : σ), ∃ k, k ≤ n ∧
+      forBreak n body s₀ = iter (fun t => (body t).1) k s₀ ∧
+      (∀ j, j + 1 < k → (body (iter (fun t => (body t).1) j s₀)).2 = false) ∧
+      (k = n ∨ (1 ≤ k ∧ (body (iter (fun t => (body t).1) (k - 1) s₀)).2 = true)) := by
+  intro n
+  induction n with
+  | zero =>
+    intro s₀
+    exact ⟨0, le_refl _, rfl, fun j hj => absurd hj (by omega), Or.inl rfl⟩
+  | succ n ih =>
+    intro s₀
+    by_cases hb : (body s₀).2 = true
+    · refine ⟨1, by omega, ?_, fun j hj => absurd hj (by omega), Or.inr ⟨le_refl _, hb⟩⟩
+      show (if (body s₀).2 = true then (body s₀).1 else _) = _
+      rw [if_pos hb]; rfl
+    · obtain ⟨k, hk, h1, h2, h3⟩ := ih (body s₀).1
+      refine ⟨k + 1, by omega, ?_, ?_, ?_⟩
+      · show (if (body s₀).2 = true then (body s₀).1 else _) = _
+        rw [if_neg hb]; exact h1
+      · intro j hj
+        cases j with
+        | zero =>
+          show (body s₀).2 = false
+          simpa using hb
+        | succ j => exact h2 j (by omega)
+      · rcases h3 with h | ⟨hk1, h⟩
+        · left; omega
+        · right
+          refine ⟨by omega, ?_⟩
+          obtain ⟨m, rfl⟩ : ∃ m, k = m + 1 := ⟨k - 1, by omega⟩
+          exact h
+
+theorem iter_succ' {σ : Type} (f : σ → σ) : ∀ (k : ℕ) (a : σ), iter f (k + 1) a = f (iter f k a) := by
+  intro k
+  induction k with
+  | zero => intro a; rfl
+  | succ k ih => intro a; exact ih (f a)
+
+/-- C04.5 — one pass of the loop body maps `σ ↦ σ₀ + Δσ(σ)` (with `2σ_m = 2σ₁ + σ`), and raises
+the break flag iff `|σ_new − σ| < 10⁻¹²`. In `vincdir`, `σ₀ = s/(b·A)` (`vincdir_eq`, `sigma0`). -/
+theorem sigma_recurrence (σ1 B σ0 : ℝ) (p : ℝ × ℝ) :
+    (body σ1 B σ0 p).1 = (2 * σ1 + p.2, σ0 + deltaSigma B (2 * σ1 + p.2) p.2) ∧
+    ((body σ1 B σ0 p).2 = true ↔ |(σ0 + deltaSigma B (2 * σ1 + p.2) p.2) - p.2| < 1 / 10 ^ 12) := by
+  refine ⟨rfl, ?_⟩
+  unfold body sigmaStep twoSigmaM
+  simp only [decide_eq_true_eq, absf_def, dec_def, Nat.cast_one]
+
+/-- the σ-sequence `σ_0 = σ₀`, `σ_{k+1} = σ₀ + Δσ(σ_k)` -/
+def sigmaSeq (σ1 B σ0 : ℝ) (k : ℕ) : ℝ := iter (sigmaStep σ1 B σ0) k σ0
+
+theorem sigmaSeq_zero (σ1 B σ0 : ℝ) : sigmaSeq σ1 B σ0 0 = σ0 := rfl
+
+theorem sigmaSeq_succ (σ1 B σ0 : ℝ) (k : ℕ) :
+    sigmaSeq σ1 B σ0 (k + 1)
+      = σ0 + deltaSigma B (2 * σ1 + sigmaSeq σ1 B σ0 k) (sigmaSeq σ1 B σ0 k) :=
+  iter_succ' _ k σ0
+
+theorem iter_step (σ1 B σ0 : ℝ) : ∀ (k : ℕ) (t σ : ℝ),
+    iter (fun p => (body σ1 B σ0 p).1) (k + 1) (t, σ)
+      = (twoSigmaM σ1 (iter (sigmaStep σ1 B σ0) k σ), iter (sigmaStep σ1 B σ0) (k + 1) σ) := by
+  intro k
+  induction k with
+  | zero => intro t σ; rfl
+  | succ k ih => intro t σ; exact ih (twoSigmaM σ1 σ) (sigmaStep σ1 B σ0 σ)
+
+theorem iter_step_snd (σ1 B σ0 : ℝ) (k : ℕ) (t σ : ℝ) :
+    (iter (fun p => (body σ1 B σ0 p).1) k (t, σ)).2 = iter (sigmaStep σ1 B σ0) k σ := by
+  cases k with
+  | zero => rfl
+  | succ k => rw [iter_step]
+
+theorem body_flag_iter (σ1 B σ0 : ℝ) (k : ℕ) :
+    ((body σ1 B σ0 (iter (fun p => (body σ1 B σ0 p).1) k ((0 : ℝ), σ0))).2 = true ↔
+      |sigmaSeq σ1 B σ0 (k + 1) - sigmaSeq σ1 B σ0 k| < 1 / 10 ^ 12) := by
+  rw [(sigma_recurrence σ1 B σ0 _).2, iter_step_snd, sigmaSeq_succ]
+  rfl
+
+/-- C04.5 — exit condition of the loop `loop σ₁ B σ₀`: it returns `(2σ₁ + σ_k, σ_{k+1})` for some
+`k < 1000`, where no earlier pair of iterates was within `10⁻¹²`, and either the last two iterates
+are within `10⁻¹²` or all 1000 iterations were used. -/
+theorem loop_exit (σ1 B σ0 : ℝ) :
+    ∃ k, k < 1000 ∧
+      loop σ1 B σ0 = (2 * σ1 + sigmaSeq σ1 B σ0 k, sigmaSeq σ1 B σ0 (k + 1)) ∧
+      (∀ j, j < k → ¬ |sigmaSeq σ1 B σ0 (j + 1) - sigmaSeq σ1 B σ0 j| < 1 / 10 ^ 12) ∧
+      (k + 1 = 1000 ∨ |sigmaSeq σ1 B σ0 (k + 1) - sigmaSeq σ1 B σ0 k| < 1 / 10 ^ 12) := by
+  obtain ⟨k', hk', h1, h2, h3⟩ := forBreak_spec (body σ1 B σ0) 1000 ((0 : ℝ), σ0)
+  have hpos : 1 ≤ k' := by rcases h3 with h | h <;> omega
+  obtain ⟨k, rfl⟩ : ∃ k, k' = k + 1 := ⟨k' - 1, by omega⟩
+  refine ⟨k, by omega, ?_, ?_, ?_⟩
+  · unfold loop; rw [h1, iter_step]; rfl
+  · intro j hj hlt
+    have := h2 j (by omega)
+    rw [(body_flag_iter σ1 B σ0 j).mpr hlt] at this
+    exact Bool.noConfusion this
+  · rcases h3 with h | ⟨_, h⟩
+    · left; exact h
+    · right; exact (body_flag_iter σ1 B σ0 k).mp h
+
+/-- C04.5 — `loop_exit` for the loop of the call `vincdir lat1 _ az s ell`: the `σ` used after the
+loop is `σ_{k+1} = s/(b·A) + Δσ(σ_k)` and `two_sigma_m = 2σ₁ + σ_k`, with
+`|σ_{k+1} − σ_k| < 10⁻¹²` unless the iteration cap 1000 was hit. -/
+theorem sigma_exit (lat1 az s : ℝ) (ell : Ellipsoid) :
+    let σ1 := sigma1 lat1 az ell
+    let B := seriesB (uSq lat1 az ell)
+    let σ0 := s / (ell.semimin * seriesA (uSq lat1 az ell))
+    ∃ k, k < 1000 ∧
+      vloop lat1 az s ell = (2 * σ1 + sigmaSeq σ1 B σ0 k, sigmaSeq σ1 B σ0 (k + 1)) ∧
+      sigmaSeq σ1 B σ0 (k + 1) = σ0 + deltaSigma B (2 * σ1 + sigmaSeq σ1 B σ0 k) (sigmaSeq σ1 B σ0 k) ∧
+      (∀ j, j < k → ¬ |sigmaSeq σ1 B σ0 (j + 1) - sigmaSeq σ1 B σ0 j| < 1 / 10 ^ 12) ∧
+      (k + 1 = 1000 ∨ |sigmaSeq σ1 B σ0 (k + 1) - sigmaSeq σ1 B σ0 k| < 1 / 10 ^ 12) := by
+  intro σ1 B σ0
+  obtain ⟨k, hk, h1, h2, h3⟩ := loop_exit σ1 B σ0
+  exact ⟨k, hk, h1, sigmaSeq_succ σ1 B σ0 k, h2, h3⟩
+
+/-! ## 7. Zero distance -/
+
+/-- `Δσ(σ = 0) = 0` (the factor `sin σ`). -/
+theorem delta_sigma_zero (B tsm : ℝ) : deltaSigma B tsm 0 = 0 := by
+  unfold deltaSigma
+  simp only [sin_def, Real.sin_zero, mul_zero, zero_mul]
+
+/-- With `σ₀ = 0` the loop breaks in its first iteration with `σ = 0`, `two_sigma_m = 2σ₁ + 0`. -/
+theorem loop_zero (σ1 B : ℝ) : loop σ1 B 0 = (2 * σ1 + 0, 0) := by
+  have hstep : sigmaStep σ1 B 0 0 = 0 := by
+    unfold sigmaStep; rw [delta_sigma_zero, add_zero]
+  have hflag : (body σ1 B 0 ((0 : ℝ), (0 : ℝ))).2 = true := by
+    unfold body
+    simp only [hstep, sub_zero, abs_zero, dec_def, decide_eq_true_eq]
+    positivity
+  unfold loop
+  show (if (body σ1 B 0 ((0 : ℝ), (0 : ℝ))).2 = true then (body σ1 B 0 ((0 : ℝ), (0 : ℝ))).1 else _) = _
+  rw [if_pos hflag]
+  unfold body twoSigmaM
+  simp only [hstep]
+
+/-- `arg (x + iy) = θ` when `(x, y) = r (cos θ, sin θ)`, `r > 0`, `θ ∈ (−π, π]`. -/
+theorem arg_mk_of_polar {r θ x y : ℝ} (hr : 0 < r) (hθ : θ ∈ Set.Ioc (-Real.pi) Real.pi)
+    (hx : x = r * Real.cos θ) (hy : y = r * Real.sin θ) : Complex.arg ⟨x, y⟩ = θ := by
+  have h : (⟨x, y⟩ : ℂ) = (r : ℂ) * (Complex.cos θ + Complex.sin θ * Complex.I) := by
+    apply Complex.ext <;>
+      simp [hx, hy, Complex.cos_ofReal_re, Complex.sin_ofReal_re, Complex.cos_ofReal_im,
+        Complex.sin_ofReal_im]
+  rw [h]
+  exact Complex.arg_mul_cos_add_sin_mul_I hr hθ
+
+theorem radians_mem_Ioo {x : ℝ} (h1 : -90 < x) (h2 : x < 90) :
+    radians x ∈ Set.Ioo (-(Real.pi / 2)) (Real.pi / 2) := by
+  have hp : 0 < Real.pi / 180 := by positivity
+  have a := mul_lt_mul_of_pos_right h1 hp
+  have b := mul_lt_mul_of_pos_right h2 hp
+  simp only [radians_def, Set.mem_Ioo]
+  constructor <;> linarith
+
+/-- At `σ = 0` the latitude `atan2` returns the geodetic latitude of point 1. -/
+theorem lat2R_zero (lat1 az : ℝ) (ell : Ellipsoid) (hf : ell.f < 1) (h1 : -90 < lat1)
+    (h2 : lat1 < 90) :
+    lat2R ell.f (alpha lat1 az ell) (u1 lat1 ell) (azr az) 0 = radians lat1 := by
+  have hφ := radians_mem_Ioo h1 h2
+  have hcφ : 0 < Real.cos (radians lat1) := Real.cos_pos_of_mem_Ioo hφ
+  have hcu : 0 < Real.cos (u1 lat1 ell) := Real.cos_arctan_pos _
+  have htan : Real.tan (u1 lat1 ell) = (1 - ell.f) * Real.tan (radians lat1) := Real.tan_arctan _
+  have hsu : Real.sin (u1 lat1 ell)
+      = (1 - ell.f) * Real.tan (radians lat1) * Real.cos (u1 lat1 ell) := by
+    rw [← htan, Real.tan_mul_cos hcu.ne']
+  have hD : latD (alpha lat1 az ell) (u1 lat1 ell) (azr az) 0 = Real.cos (u1 lat1 ell) ^ 2 := by
+    unfold latD
+    simp only [pown_def, sin_def, cos_def, clairaut, Real.sin_zero, Real.cos_zero, mul_zero, mul_one]
+    linear_combination (Real.cos (u1 lat1 ell) ^ 2) * Real.sin_sq_add_cos_sq (azr az)
+  have hN : latNum (u1 lat1 ell) (azr az) 0 = Real.sin (u1 lat1 ell) := by
+    unfold latNum
+    simp only [sin_def, cos_def, Real.sin_zero, Real.cos_zero, mul_zero, mul_one, zero_mul, add_zero]
+  unfold lat2R
+  rw [hD, hN, sqrt_def, Real.sqrt_sq hcu.le, atan2_def]
+  have hpi := Real.pi_pos
+  refine arg_mk_of_polar (r := (1 - ell.f) * Real.cos (u1 lat1 ell) / Real.cos (radians lat1))
+    (div_pos (mul_pos (by linarith) hcu) hcφ) ⟨by linarith [hφ.1], by linarith [hφ.2]⟩ ?_ ?_
+  · field_simp
+  · rw [hsu, Real.tan_eq_sin_div_cos]; field_simp
+
+/-- At `σ = 0` the auxiliary longitude difference is `0`. -/
+theorem lonAux_zero (lat1 az : ℝ) (ell : Ellipsoid) : lonAux (u1 lat1 ell) az 0 = 0 := by
+  have hcu : 0 < Real.cos (u1 lat1 ell) := Real.cos_arctan_pos _
+  unfold lonAux lonX lonY
+  simp only [atan2_def, sin_def, cos_def, Real.sin_zero, Real.cos_zero, mul_zero, mul_one, zero_mul,
+    sub_zero]
+  exact Complex.arg_ofReal_of_nonneg hcu.le
+
+theorem omega_zero (f α tsm az lat1 : ℝ) (ell : Ellipsoid) :
+    omega f α (u1 lat1 ell) az tsm 0 = 0 := by
+  unfold omega
+  rw [lonAux_zero]
+  simp only [sin_def, Real.sin_zero, mul_zero, zero_mul, add_zero, sub_zero]
+
+/-- At `σ = 0` the reverse-azimuth `atan2` returns the forward azimuth (radians), for
+`−180 < az ≤ 180`. -/
+theorem revR_zero (lat1 az : ℝ) (ell : Ellipsoid) (h1 : -180 < az) (h2 : az ≤ 180) :
+    revR (alpha lat1 az ell) (u1 lat1 ell) (azr az) 0 = radians az := by
+  have hcu : 0 < Real.cos (u1 lat1 ell) := Real.cos_arctan_pos _
+  have hp : 0 < Real.pi / 180 := by positivity
+  have a := mul_lt_mul_of_pos_right h1 hp
+  have b := mul_le_mul_of_nonneg_right h2 hp.le
+  unfold revR revDen
+  simp only [atan2_def, sin_def, cos_def, clairaut, Real.sin_zero, Real.cos_zero, mul_zero, mul_one,
+    zero_add]
+  refine arg_mk_of_polar (r := Real.cos (u1 lat1 ell)) hcu ?_ rfl rfl
+  simp only [radians_def, Set.mem_Ioc]
+  constructor <;> linarith
+
+/-- the same for `180 < az ≤ 540`: the `atan2` returns `az − 360°`. -/
+theorem revR_zero' (lat1 az : ℝ) (ell : Ellipsoid) (h1 : 180 < az) (h2 : az ≤ 540) :
+    revR (alpha lat1 az ell) (u1 lat1 ell) (azr az) 0 = radians (az - 360) := by
+  have hcu : 0 < Real.cos (u1 lat1 ell) := Real.cos_arctan_pos _
+  have hp : 0 < Real.pi / 180 := by positivity
+  have a := mul_lt_mul_of_pos_right h1 hp
+  have b := mul_le_mul_of_nonneg_right h2 hp.le
+  have hr : radians (az - 360) = azr az - 2 * Real.pi := by
+    simp only [azr, radians_def]; field_simp; ring
+  unfold revR revDen
+  simp only [atan2_def, sin_def, cos_def, clairaut, Real.sin_zero, Real.cos_zero, mul_zero, mul_one,
+    zero_add]
+  rw [hr]
+  refine arg_mk_of_polar (r := Real.cos (u1 lat1 ell)) hcu ?_ ?_ ?_
+  · simp only [azr, radians_def, Set.mem_Ioc]
+    constructor <;> linarith
+  · rw [Real.cos_sub_two_pi]
+  · rw [Real.sin_sub_two_pi]
+
+/-- the loop of `vincdir` for `s = 0` -/
+theorem vloop_zero (lat1 az : ℝ) (ell : Ellipsoid) :
+    vloop lat1 az 0 ell = (2 * sigma1 lat1 az ell + 0, 0) := by
+  unfold vloop sigma0
+  rw [zero_div, loop_zero]
+
+/-- C04.6 — zero distance: for a proper flattening (`f < 1`), `|lat1| < 90` and a forward azimuth
+in `(−180, 180]`, `vincdir` with `s = 0` returns the start point (rounded to 11 places) and the
+reverse azimuth `az + 180` (rounded to 9 places). The hypothesis `_hden` records the domain guard
+of the division `s / (b·A)` that Python performs (it is not needed for the real-number value). -/
+theorem zero_distance (lat1 lon1 az : ℝ) (ell : Ellipsoid) (hf : ell.f < 1)
+    (hlat : -90 < lat1 ∧ lat1 < 90) (haz : -180 < az ∧ az ≤ 180)
+    (_hden : ell.semimin * seriesA (uSq lat1 az ell) ≠ 0) :
+    vincdir lat1 lon1 az 0 ell = (pround 11 lat1, pround 11 lon1, pround 9 (az + 180)) := by
+  rw [vincdir_eq, vloop_zero]
+  simp only [outLat, outLon, outAz, lat2R_zero lat1 az ell hf hlat.1 hlat.2, omega_zero,
+    revR_zero lat1 az ell haz.1 haz.2, degrees_radians]
+  simp only [zero_mul, add_zero]
+
+/-- C04.6 for forward azimuths in `(180, 540]` (e.g. the usual `(180, 360)`): the returned
+reverse azimuth is `az − 180`. -/
+theorem zero_distance' (lat1 lon1 az : ℝ) (ell : Ellipsoid) (hf : ell.f < 1)
+    (hlat : -90 < lat1 ∧ lat1 < 90) (haz : 180 < az ∧ az ≤ 540)
+    (_hden : ell.semimin * seriesA (uSq lat1 az ell) ≠ 0) :
+    vincdir lat1 lon1 az 0 ell = (pround 11 lat1, pround 11 lon1, pround 9 (az - 180)) := by
+  rw [vincdir_eq, vloop_zero]
+  simp only [outLat, outLon, outAz, lat2R_zero lat1 az ell hf hlat.1 hlat.2, omega_zero,
+    revR_zero' lat1 az ell haz.1 haz.2, degrees_radians]
+  simp only [zero_mul, add_zero]
+  congr 3; ring
+
+/-! ## The auxiliary-sphere facts for the actual call -/
+
+/-- C04.3/C04.4 assembled for the call `vincdir lat1 lon1 az s ell` (Clairaut's hypothesis is
+discharged by `clairaut`): with `σ` the loop result, `u₂`, `λ` are the spherical coordinates of the
+great-circle end point, the returned latitude is `pround 11 (degrees φ₂)` with
+`(1−f) sin φ₂ cos u₂ = cos φ₂ sin u₂`, and the returned reverse azimuth is
+`pround 9 (degrees β + 180)` with `cos u₂ sin β = sin α = cos u₁ sin α₁`. -/
+theorem aux_sphere_call (lat1 lon1 az s : ℝ) (ell : Ellipsoid) :
+    let σ := (vloop lat1 az s ell).2
+    let α := alpha lat1 az ell
+    let u := u1 lat1 ell
+    let a := azr az
+    let u2 := u2R α u a σ
+    let lam := lonAux u a σ
+    let φ2 := lat2R ell.f α u a σ
+    let β := revR α u a σ
+    (vincdir lat1 lon1 az s ell).1 = pround 11 (degrees φ2) ∧
+    (vincdir lat1 lon1 az s ell).2.2 = pround 9 (degrees β + 180) ∧
+    Real.cos u2 * Real.cos lam = Real.cos σ * Real.cos u - Real.sin σ * Real.cos a * Real.sin u ∧
+    Real.cos u2 * Real.sin lam = Real.sin σ * Real.sin a ∧
+    Real.sin u2 = Real.cos σ * Real.sin u + Real.sin σ * Real.cos a * Real.cos u ∧
+    (1 - ell.f) * Real.sin φ2 * Real.cos u2 = Real.cos φ2 * Real.sin u2 ∧
+    Real.cos u2 * Real.sin β = Real.cos u * Real.sin a := by
+  intro σ α u a u2 lam φ2 β
+  have hα : Real.sin α = Real.cos u * Real.sin a := clairaut lat1 az ell
+  obtain ⟨p1, p2, p3⟩ := aux_sphere_point α u a σ hα
+  refine ⟨by rw [vincdir_eq]; rfl, by rw [vincdir_eq]; rfl, ?_, ?_, ?_,
+    lat2_from_reduced ell.f α u a σ hα, ?_⟩
+  · rw [p1]; ring
+  · rw [p2]; ring
+  · rw [p3]; ring
+  · rw [← hα]; exact (clairaut_reverse α u a σ hα).1
+
+/-! ## Satisfiability of hypotheses -/
+
+/-- the unit sphere as an `Ellipsoid` value (only `semimaj = semimin = 1`, `f = 0` matter) -/
+def unitSphere : Ellipsoid := ⟨1, 0, 0, 1, 0, 0, 0, 0, 0, 0, 0⟩
+
+/-- the hypotheses of `zero_distance` are satisfiable -/
+example : ∃ (lat1 az : ℝ) (ell : Ellipsoid), ell.f < 1 ∧ (-90 < lat1 ∧ lat1 < 90) ∧
+    (-180 < az ∧ az ≤ 180) ∧ ell.semimin * seriesA (uSq lat1 az ell) ≠ 0 :=
+  ⟨0, 0, unitSphere, by norm_num [unitSphere], by norm_num, by norm_num,
+    by simp [unitSphere, uSq, seriesA]⟩
+
+/-- the hypotheses of `zero_distance'` are satisfiable -/
+example : ∃ (lat1 az : ℝ) (ell : Ellipsoid), ell.f < 1 ∧ (-90 < lat1 ∧ lat1 < 90) ∧
+    (180 < az ∧ az ≤ 540) ∧ ell.semimin * seriesA (uSq lat1 az ell) ≠ 0 :=
+  ⟨0, 270, unitSphere, by norm_num [unitSphere], by norm_num, by norm_num,
+    by simp [unitSphere, uSq, seriesA]⟩
+
+/-- Clairaut's hypothesis of the `aux_sphere_*` lemmas holds for the pieces of every call -/
+example (lat1 az σ : ℝ) (ell : Ellipsoid) :
+    latNum (u1 lat1 ell) (azr az) σ ^ 2 + latD (alpha lat1 az ell) (u1 lat1 ell) (azr az) σ = 1 :=
+  aux_sphere_unit _ _ _ _ (clairaut lat1 az ell)
+
+/-- the hypotheses of `lat2_tan` are satisfiable -/
+example : ∃ f α u az σ : ℝ, f < 1 ∧ 0 < latD α u az σ :=
+  ⟨0, 0, 0, 0, 0, by norm_num, by simp [latD]⟩
+
+/-- the hypotheses of `vincdir_ellipsoid_only` do not force the ellipsoids to be equal -/
+example : ∃ e1 e2 : Ellipsoid, e1 ≠ e2 ∧ e1.f = e2.f ∧ e1.semimaj = e2.semimaj ∧
+    e1.semimin = e2.semimin :=
+  ⟨unitSphere, { unitSphere with meanradius := 5 }, by
+    intro h
+    have := congrArg Ellipsoid.meanradius h
+    norm_num [unitSphere] at this, rfl, rfl, rfl⟩
+
 end
+
+#print axioms vincdir_eq
+#print axioms vincenty_AB_ref
+#print axioms vincenty_A_taylor
+#print axioms vincenty_A_taylor_num
+#print axioms vincenty_C_ref
+#print axioms u_squared_def
+#print axioms vincdir_ellipsoid_only
+#print axioms clairaut
+#print axioms clairaut_reverse
+#print axioms aux_sphere_unit
+#print axioms aux_sphere_point
+#print axioms lat2_from_reduced
+#print axioms lat2_tan
+#print axioms aux_sphere_call
+#print axioms forBreak_spec
+#print axioms sigma_recurrence
+#print axioms sigma_exit
+#print axioms delta_sigma_zero
+#print axioms zero_distance
+#print axioms zero_distance'
+#print axioms rounding_close
 
 end GeodeVerif.C04
